@@ -3,6 +3,7 @@ import Driver.Copy
 import Driver.Api
 import Driver.Deriv
 import Driver.Ecp
+import Driver.Bessel
 /-! Model driver.  Single-line requests: first token selects the layer.
 Multi-line requests: `begin <layer>` … `end`. -/
 
@@ -14,6 +15,8 @@ def dispatch (toks : List String) : List String :=
   | "history" :: rest => Driver.History.handle rest
   | "copy" :: rest => Driver.Copy.handle rest
   | "ecp" :: rest => Driver.Ecp.handle rest
+  | "bessel" :: rest => Driver.Bessel.handle rest
+  | "besselrow" :: rest => Driver.Bessel.handleRows rest
   | [] => []
   | _ => ["bad-layer"]
 
